@@ -501,6 +501,9 @@ func GetPillarEpochHistoryList(context db.DB, epoch uint64) ([]*PillarEpochHisto
 			}
 			break
 		}
+		if len(iterator.Value()) == 0 {
+			continue
+		}
 		if entry, err := parsePillarEpochHistoryEntry(iterator.Key(), iterator.Value()); err == nil && entry != nil {
 			list = append(list, entry)
 		} else {
